@@ -1,7 +1,9 @@
-//! C16: ear clipping (`TriMesh::from_polygon`) and Hertel–Mehlhorn (`hertel_mehlhorn_idx`).
+//! C16: ear clipping (`TriMesh::from_polygon`), Hertel–Mehlhorn (`hertel_mehlhorn_idx`, `hertel_mehlhorn`) and the
+//! `Compound::decompose_trimesh` glue (`ConvexPolygon::from_convex_polyline`), all through the public API.
 use crate::util::*;
 use crate::p2::shape::TriMesh;
-use crate::p2::transformation::hertel_mehlhorn_idx;
+use crate::p2::transformation::{hertel_mehlhorn, hertel_mehlhorn_idx};
+use crate::p2::shape::Compound;
 
 type P2 = d2::Point<f64>;
 
@@ -19,6 +21,13 @@ fn htris(t: &[[u32; 3]]) -> String {
 
 pub fn exec(func: &str, a: &mut Args) -> String {
     match func {
+        "dbg_families" => { let mut r = Rng::new(a.u() as u64); let mut out = String::new();
+            for fam in 0..7u64 { let (mut ok, mut bad, mut nv) = (0, 0, 0);
+                for it in 0..300 { let m = if it % 10 == 0 { 12 + r.below(40) as usize } else { 2 + r.below(7) as usize };
+                    let base = family2(&mut r, fam, m); let mut p = place(&mut r, true, &base); if !is_ccw(&p) { p.reverse(); }
+                    nv += p.len(); if simple_exact(&p) { ok += 1 } else { bad += 1; if bad == 1 { out.push_str(&format!("[bad fam {} {:?}] ", fam, base)); } } }
+                out.push_str(&format!("fam{}: ok {} bad {} avgn {}; ", fam, ok, bad, nv / 300)); }
+            out }
         "triangulate" => { let p = poly(a);
             match TriMesh::from_polygon(p) { None => "none".into(), Some(m) => format!("some {}", htris(m.indices())) } }
         "hertel_mehlhorn" => { let p = poly(a); let k = a.u();
@@ -27,7 +36,45 @@ pub fn exec(func: &str, a: &mut Args) -> String {
             let mut s = format!("{}", r.len());
             for q in r.iter() { s.push_str(&format!(" {}", q.len())); for i in q.iter() { s.push_str(&format!(" {}", i)); } }
             s }
+        // the point-valued wrapper `hertel_mehlhorn` (public API): pieces as point lists
+        "hertel_mehlhorn_pts" => { let p = poly(a); let k = a.u();
+            let t: Vec<[u32; 3]> = (0..k).map(|_| [a.u() as u32, a.u() as u32, a.u() as u32]).collect();
+            let r = hertel_mehlhorn(&p, &t);
+            let mut s = format!("{}", r.len());
+            for q in r.iter() { s.push(' '); s.push_str(&fpoly(q)); }
+            s }
+        // `Compound::decompose_trimesh(&TriMesh::from_polygon(p)?)` through the public API
+        "decompose" => { let p = poly(a);
+            match TriMesh::from_polygon(p) { None => "none".into(), Some(m) => fcompound(Compound::decompose_trimesh(&m)) } }
+        // `Compound::decompose_trimesh(&TriMesh::new(p, t))`: any triangle list
+        "decompose_tris" => { let p = poly(a); let k = a.u();
+            let t: Vec<[u32; 3]> = (0..k).map(|_| [a.u() as u32, a.u() as u32, a.u() as u32]).collect();
+            match TriMesh::new(p, t) { Err(_) => "none".into(), Ok(m) => fcompound(Compound::decompose_trimesh(&m)) } }
         _ => "nofn".into(),
+    }
+}
+
+fn fpoly(p: &[P2]) -> String {
+    let mut s = format!("{}", p.len());
+    for q in p { s.push(' '); s.push_str(&d2::fp(q)); }
+    s
+}
+/// `cnone` | `shapes m (T a b c | P k points… normals…)*`
+fn fcompound(c: Option<Compound>) -> String {
+    match c {
+        None => "cnone".into(),
+        Some(c) => {
+            let mut s = format!("shapes {}", c.shapes().len());
+            for (m, sh) in c.shapes() {
+                if *m != d2::Isometry::identity() { s.push_str(" nonidentity"); }
+                if let Some(t) = sh.as_triangle() { s.push_str(&format!(" T {} {} {}", d2::fp(&t.a), d2::fp(&t.b), d2::fp(&t.c))); }
+                else if let Some(cp) = sh.as_convex_polygon() {
+                    s.push_str(&format!(" P {}", fpoly(cp.points())));
+                    for n in cp.normals() { s.push(' '); s.push_str(&d2::fv(&n.into_inner())); }
+                } else { s.push_str(" othershape"); }
+            }
+            s
+        }
     }
 }
 
@@ -170,6 +217,173 @@ pub fn gen_simple(r: &mut Rng, lat: bool, big: bool) -> Vec<P2> {
     rotate_start(r, p)
 }
 
+
+// ---------------------------------------------------------------- growth: more simple families with exactly tied tests
+
+/// exact similarity or an exact shear-free affine placement of integer-grid polygons; `lat = false`: random similarity
+/// (rotation by a random angle, random scale and shift: the ties are then only approximate)
+fn place(r: &mut Rng, lat: bool, base: &[(f64, f64)]) -> Vec<P2> {
+    if lat { return similar(r, base); }
+    let a = r.uniform(0.0, 6.283185307179586); let (c, s) = (a.cos(), a.sin());
+    let k = r.logu(0.05, 20.0);
+    let o = P2::new(r.uniform(-100.0, 100.0), r.uniform(-100.0, 100.0));
+    base.iter().map(|p| P2::new(o.x + k * (c * p.0 - s * p.1), o.y + k * (s * p.0 + c * p.1))).collect()
+}
+/// orthogonal histogram polygon on the integer grid: bars of unit width; equal neighbouring heights give collinear runs,
+/// unequal ones two vertices on the same vertical line; `both`: the lower chain varies as well (reflex corners on both
+/// chains); `cut`: the bottom edge is cut at every integer (a collinear run of `m + 1` vertices)
+fn histogram(r: &mut Rng, m: usize, both: bool, cut: bool) -> Vec<(f64, f64)> {
+    let hs: Vec<i64> = (0..m).map(|_| 1 + r.below(4) as i64).collect();
+    let ls: Vec<i64> = (0..m).map(|_| if both { -(r.below(3) as i64) } else { 0 }).collect();
+    let mut v: Vec<(f64, f64)> = Vec::new();
+    // lower chain, left to right
+    for i in 0..m {
+        let y = ls[i] as f64;
+        if i == 0 || ls[i - 1] != ls[i] || cut { v.push((i as f64, y)); }
+        if i + 1 == m || ls[i + 1] != ls[i] { v.push(((i + 1) as f64, y)); }
+    }
+    // upper chain, right to left
+    for i in (0..m).rev() {
+        let y = hs[i] as f64;
+        if i + 1 == m || hs[i + 1] != hs[i] || r.below(3) == 0 { v.push(((i + 1) as f64, y)); }
+        if i == 0 || hs[i - 1] != hs[i] { v.push((i as f64, y)); }
+    }
+    v.dedup();
+    v
+}
+/// zigzag band: both chains are saw-teeth (every second vertex of each chain is reflex)
+fn zigzag(r: &mut Rng, m: usize) -> Vec<(f64, f64)> {
+    let a = (1 + r.below(3)) as f64; let b = a + (1 + r.below(3)) as f64;
+    let mut v: Vec<(f64, f64)> = (0..=m).map(|i| (i as f64, if i % 2 == 0 { 0.0 } else { a })).collect();
+    for i in (0..=m).rev() { v.push((i as f64, b + if i % 2 == 0 { 0.0 } else { a })); }
+    v
+}
+/// region under a parabola / under a `|x|` roof: one long reflex chain (parabola: no three collinear; roof: two collinear
+/// runs meeting in one reflex vertex)
+fn reflex_chain(r: &mut Rng, m: i64) -> Vec<(f64, f64)> {
+    let roof = r.bool();
+    let mut v = vec![(-(m as f64), -1.0), (m as f64, -1.0)];
+    for x in (-m..=m).rev() { let y = if roof { 2 * x.abs() } else { x * x }; v.push((x as f64, y as f64)); }
+    v
+}
+/// star polygon with `k` points alternating between two radii along the 16 exact directions (many tied orientation tests:
+/// opposite spikes are collinear with the centre, inner vertices lie on lines through outer ones)
+fn star_poly(r: &mut Rng) -> Vec<(f64, f64)> {
+    let dirs: [(f64, f64); 16] = [(2.0, 0.0), (2.0, 1.0), (2.0, 2.0), (1.0, 2.0), (0.0, 2.0), (-1.0, 2.0), (-2.0, 2.0), (-2.0, 1.0),
+        (-2.0, 0.0), (-2.0, -1.0), (-2.0, -2.0), (-1.0, -2.0), (0.0, -2.0), (1.0, -2.0), (2.0, -2.0), (2.0, -1.0)];
+    let step = *r.pick(&[1usize, 2, 4]);
+    let (ro, ri) = ((2 + r.below(3)) as f64, (1 + r.below(2)) as f64 * 0.5);
+    let mut v = Vec::new();
+    let mut i = 0;
+    while i < 16 { let k = if (i / step) % 2 == 0 { ro } else { ri }; v.push((dirs[i].0 * k, dirs[i].1 * k)); i += step; }
+    v
+}
+/// rectangular spiral corridor of width 1 with `t` turns on the integer grid
+fn rect_spiral(t: usize) -> Vec<(f64, f64)> {
+    let l = (4 * t + 1) as i64;
+    let mut a: Vec<(i64, i64)> = vec![(0, 0)];
+    let mut b: Vec<(i64, i64)> = vec![(0, 1)];
+    for k in 0..t as i64 {
+        let (lo, hi) = (2 * k, l - 2 * k);
+        a.extend_from_slice(&[(hi, lo), (hi, hi), (lo, hi), (lo, lo + 2)]);
+        let last = k + 1 == t as i64;
+        b.extend_from_slice(&[(hi - 1, lo + 1), (hi - 1, hi - 1), (lo + 1, hi - 1), (lo + 1, if last { lo + 2 } else { lo + 3 })]);
+    }
+    let mut v: Vec<(f64, f64)> = a.iter().map(|p| (p.0 as f64, p.1 as f64)).collect();
+    for p in b.iter().rev() { v.push((p.0 as f64, p.1 as f64)); }
+    v
+}
+fn simple_exact(poly: &[P2]) -> bool {
+    // cheap f64 simplicity filter for generated *lattice* polygons (all predicates exact there); used only to drop the
+    // rare malformed instance of a constructive family, never to judge an output
+    let n = poly.len();
+    if n < 3 { return false; }
+    let o = |a: &P2, b: &P2, c: &P2| (b.x - a.x) * (c.y - a.y) - (b.y - a.y) * (c.x - a.x);
+    let on = |a: &P2, b: &P2, c: &P2| c.x >= a.x.min(b.x) && c.x <= a.x.max(b.x) && c.y >= a.y.min(b.y) && c.y <= a.y.max(b.y);
+    for i in 0..n { for j in i + 1..n {
+        let (a, b, c, d) = (&poly[i], &poly[(i + 1) % n], &poly[j], &poly[(j + 1) % n]);
+        if j == i + 1 || (j + 1) % n == i {
+            let (p, q, s) = if j == i + 1 { (a, b, d) } else { (c, d, b) };
+            if o(p, q, s) == 0.0 && (q.x - p.x) * (s.x - q.x) + (q.y - p.y) * (s.y - q.y) <= 0.0 { return false; }
+            continue;
+        }
+        let (o1, o2, o3, o4) = (o(a, b, c), o(a, b, d), o(c, d, a), o(c, d, b));
+        if ((o1 > 0.0) != (o2 > 0.0) || o1 == 0.0 || o2 == 0.0) && ((o3 > 0.0) != (o4 > 0.0) || o3 == 0.0 || o4 == 0.0) {
+            if o1 != 0.0 && o2 != 0.0 && o3 != 0.0 && o4 != 0.0 { return false; }
+            if (o1 == 0.0 && on(a, b, c)) || (o2 == 0.0 && on(a, b, d)) || (o3 == 0.0 && on(c, d, a)) || (o4 == 0.0 && on(c, d, b)) { return false; }
+        }
+    } }
+    true
+}
+fn family2(r: &mut Rng, fam: u64, m: usize) -> Vec<(f64, f64)> {
+    match fam {
+        0 => { let c = r.bool(); histogram(r, m, false, c) }
+        1 => { let c = r.bool(); histogram(r, m, true, c) }
+        2 => zigzag(r, m.max(2)),
+        3 => reflex_chain(r, (m as i64).clamp(1, 12)),
+        4 => star_poly(r),
+        5 => rect_spiral(1 + (m / 8).min(5)),
+        _ => { let mut h = histogram(r, m, true, true); h.dedup(); h }
+    }
+}
+/// second batch of simple counter-clockwise families (growth round)
+pub fn gen_simple2(r: &mut Rng, lat: bool, big: bool) -> Vec<P2> {
+    let m = if big { 12 + r.below(40) as usize } else { 2 + r.below(7) as usize };
+    let fam = r.below(7);
+    let base = family2(r, fam, m);
+    let mut p = place(r, lat, &base);
+    if r.below(4) == 0 { p = subdivide(r, lat, &p, 3); }
+    if !is_ccw(&p) { p.reverse(); }
+    rotate_start(r, p)
+}
+
+// ---------------------------------------------------------------- growth: non-simple families (rejection clause)
+
+/// a non-simple polygon derived from the simple polygon `p`
+fn spoil(r: &mut Rng, lat: bool, p: &[P2]) -> Vec<P2> {
+    let n = p.len();
+    let mut q = p.to_vec();
+    match r.below(8) {
+        // repeated consecutive vertex
+        0 => { let i = r.below(n as u64) as usize; q.insert(i, p[i]); }
+        // zero-area spike: … p[i], s, p[i] …  (s anywhere: outside, inside or on the boundary)
+        1 => { let i = r.below(n as u64) as usize; let j = r.below(n as u64) as usize;
+               let s = if r.bool() { P2::new((p[i].x + p[j].x) * 0.5, (p[i].y + p[j].y) * 0.5 + if lat { 0.5 } else { 0.37 }) } else { p[j] };
+               q.insert(i + 1, s); q.insert(i + 2, p[i]); }
+        // pinch: a non-adjacent vertex is moved onto another vertex (repeated, non-consecutive vertex)
+        2 => { if n >= 5 { let i = r.below(n as u64) as usize; let j = (i + 2 + r.below(n as u64 - 3) as usize) % n; q[j] = p[i]; } else { q.swap(0, 1); } }
+        // touch: a vertex is moved onto the middle of a non-adjacent edge
+        3 => { if n >= 5 { let i = r.below(n as u64) as usize; let j = (i + 2 + r.below(n as u64 - 4) as usize) % n;
+                           q[j] = P2::new((p[i].x + p[(i + 1) % n].x) * 0.5, (p[i].y + p[(i + 1) % n].y) * 0.5); } else { q.swap(0, 2 % n); } }
+        // fold-back: the boundary backtracks along an edge
+        4 => { let i = r.below(n as u64) as usize; let a = p[i]; let b = p[(i + 1) % n];
+               let m1 = P2::new(a.x + (b.x - a.x) * 0.75, a.y + (b.y - a.y) * 0.75); let m2 = P2::new(a.x + (b.x - a.x) * 0.25, a.y + (b.y - a.y) * 0.25);
+               q.insert(i + 1, m1); q.insert(i + 2, m2); }
+        // bow-tie: two (usually non-adjacent) vertices exchanged
+        5 => { if n >= 4 { let i = r.below(n as u64) as usize; let j = (i + 1 + r.below(n as u64 - 1) as usize) % n; q.swap(i, j); } else { q.reverse(); } }
+        // the polygon traversed twice (winding number 2 everywhere inside)
+        6 => { q.extend_from_slice(p); }
+        // one vertex thrown far across the polygon
+        _ => { let i = r.below(n as u64) as usize; let j = (i + n / 2) % n; let d = if lat { 1.0 } else { 0.61 };
+               q[i] = P2::new(2.0 * p[j].x - p[i].x + d, 2.0 * p[j].y - p[i].y); }
+    }
+    if r.below(4) == 0 { q.reverse(); }
+    q
+}
+/// closed curve winding twice around its centre (self-intersecting, regions of winding number 2)
+fn double_wind(r: &mut Rng, lat: bool) -> Vec<P2> {
+    let n = 5 + 2 * r.below(6) as usize;   // odd
+    if lat {
+        // {n/2} star polygons on exact directions: vertices of a convex lattice polygon visited with step 2
+        let c = crate::registry::c15::gen_convex(r, true);
+        let m = c.len(); if m < 5 || m % 2 == 0 { return vec![P2::new(0.0, 4.0), P2::new(-2.0, -4.0), P2::new(4.0, 1.0), P2::new(-4.0, 1.0), P2::new(2.0, -4.0)]; }
+        (0..m).map(|i| c[(2 * i) % m]).collect()
+    } else {
+        let c = P2::new(r.uniform(-50.0, 50.0), r.uniform(-50.0, 50.0)); let s = r.logu(0.1, 50.0);
+        (0..n).map(|i| { let t = i as f64 * 2.0 * 6.283185307179586 / n as f64; let k = s * (1.0 + 0.3 * r.unit()); P2::new(c.x + k * t.cos(), c.y + k * t.sin()) }).collect()
+    }
+}
+
 pub fn gen(r: &mut Rng, thorough: bool) -> Vec<(String, String)> {
     let n = if thorough { 12000 } else { 1500 };
     let mut v = Vec::new();
@@ -201,15 +415,52 @@ pub fn gen(r: &mut Rng, thorough: bool) -> Vec<(String, String)> {
             for i in (1..t.len()).rev() { let j = r.below(i as u64 + 1) as usize; t.swap(i, j); }
             for x in t.iter_mut() { let k = r.below(3) as usize; x.rotate_left(k); }
             v.push(("hertel_mehlhorn".into(), format!("{} {}", hpoly(&q), htris(&t))));
-        }
+            // the public wrappers: point-valued Hertel–Mehlhorn and the Compound glue, on the shuffled tiling too
+            if it % 2 == 0 || it % 40 == 7 {
+                v.push(("decompose".into(), hpoly(&q)));
+                v.push(("hertel_mehlhorn_pts".into(), format!("{} {}", hpoly(&q), htris(&t))));
+                v.push(("decompose_tris".into(), format!("{} {}", hpoly(&q), htris(&t))));
+            }
+        } else if it % 4 == 0 { v.push(("decompose".into(), hpoly(&q))); }
         // fan triangulation of a convex polygon: everything merges back into one piece
         if it % 5 == 0 {
             let c = crate::registry::c15::gen_convex(r, lat);
             if c.len() >= 3 && is_ccw(&c) {
                 let t: Vec<[u32; 3]> = (1..c.len() as u32 - 1).map(|i| [0, i, i + 1]).collect();
                 v.push(("hertel_mehlhorn".into(), format!("{} {}", hpoly(&c), htris(&t))));
+                v.push(("decompose_tris".into(), format!("{} {}", hpoly(&c), htris(&t))));
             }
         }
     }
+    gen_growth(r, thorough, &mut v);
     v
+}
+
+/// growth round: the new simple families (also through the `Compound` glue), their clockwise mirror images, and the
+/// non-simple families
+fn gen_growth(r: &mut Rng, thorough: bool, v: &mut Vec<(String, String)>) {
+    let n = if thorough { 9000 } else { 900 };
+    for it in 0..n {
+        let lat = it % 2 == 0;
+        let big = it % 30 == 11;
+        let p = if it % 3 == 2 { gen_simple(r, lat, big) } else { gen_simple2(r, lat, big) };
+        if lat && !simple_exact(&p) { continue; }
+        let q: Vec<P2> = match r.below(10) {
+            0 => { let mut q = p.clone(); q.reverse(); q }
+            1 | 2 | 3 => spoil(r, lat, &p),
+            4 => if r.bool() { double_wind(r, lat) } else { spoil(r, lat, &p) },
+            _ => p.clone(),
+        };
+        v.push(("triangulate".into(), hpoly(&q)));
+        if it % 3 == 0 { v.push(("decompose".into(), hpoly(&q))); }
+        if it % 4 == 1 {
+            if let Some(m) = std::panic::catch_unwind(|| TriMesh::from_polygon(q.clone())).ok().flatten() {
+                let mut t: Vec<[u32; 3]> = m.indices().to_vec();
+                for i in (1..t.len()).rev() { let j = r.below(i as u64 + 1) as usize; t.swap(i, j); }
+                for x in t.iter_mut() { let k = r.below(3) as usize; x.rotate_left(k); }
+                v.push(("hertel_mehlhorn".into(), format!("{} {}", hpoly(&q), htris(&t))));
+                if it % 8 == 1 { v.push(("decompose_tris".into(), format!("{} {}", hpoly(&q), htris(&t)))); }
+            }
+        }
+    }
 }
